@@ -175,7 +175,7 @@ func (s *Session) targets(prop string, only string) ([]target, []string) {
 			if fs.Extern || fs.Trusted {
 				continue
 			}
-			if strings.Contains(fs.Target, "fieldfunc ") || strings.HasPrefix(fs.Target, "iface ") {
+			if strings.Contains(fs.Target, "fieldfunc ") || strings.HasPrefix(fs.Target, "iface ") || strings.Contains(fs.Target, "typefunc ") {
 				continue
 			}
 			if prop != "" && !hasProp(fs, prop) {
